@@ -8,7 +8,7 @@ import time
 from multiprocessing import Pool
 
 from common import asan_stage, COPIA, NCPU, Result, SplitMix, build, finish, seed, workdir
-from fsutil import (clear_standin_log, HOSTILE_COMPONENTS, MUTATING, STAGING, base_env, clear_traces, content_map, install_standin, is_staging, name_class, read_standin_log, read_traces, rmtree, run, set_mtime, shim_env, snapshot, wait_group_gone, write_file)
+from fsutil import (copy_tree, clear_standin_log, HOSTILE_COMPONENTS, MUTATING, STAGING, base_env, clear_traces, content_map, install_standin, is_staging, name_class, read_standin_log, read_traces, rmtree, run, set_mtime, shim_env, snapshot, wait_group_gone, write_file)
 
 DIRECTIONS = ("local", "push", "pull")
 MTIMES = [(0, 0), (1, 0), (1_600_000_000, 1), (1_600_000_000, 500_000_000), (1_600_000_000, 999_999_999), (2_147_483_647, 0), (2_147_483_648, 0), (4_102_444_800, 0), (9_999_999_999, 0), (1_700_000_000, 0), (1_234_567_890, 123_456_789)]
@@ -875,12 +875,12 @@ def _c09_worker(args):
         transfer, skipped, dele = model_plan(srcm, dstm, fl["excludes"], fl["delete"])
         save = root + ".save"
         rmtree(save)
-        shutil.copytree(ow.parent, save, symlinks=True)
+        copy_tree(ow.parent, save)
         # copytree does not keep mtimes of files reliably -> copy2 is the default and keeps mtime_ns
 
         def restore():
             rmtree(ow.parent)
-            shutil.copytree(save, ow.parent, symlinks=True)
+            copy_tree(save, ow.parent)
             rmtree(os.path.join(ow.home, ".copia"))
 
         trace = os.path.join(root, "tr")
